@@ -1128,6 +1128,13 @@ def check_C08(ctx):
     exprs += folded_constant_cases(rng, sizes(tier, 40, 600))
     exprs += gen.repairable_singular(rng, [2, 3], sizes(tier, 60, 800))
     exprs += [e_ for e_, _p in gen.large_cases(rng, sizes(tier, 10, 120), max_arity=13)]
+    for _ in range(sizes(tier, 4, 30)):
+        # a power around a tower of odd roots whose indices share factors with the exponent and multiply far beyond 2^53
+        ns = [rng.choice([9, 15, 21, 27, 33, 45, 81, 101, 7, 5]) for _ in range(rng.randint(12, 16))]
+        t = ('V', 2)
+        for n_ in ns:
+            t = ('NthRoot', t, n_)
+        exprs.append(('NthPow', t, rng.choice([3, 9, 15, 5, 45])))
     # inverse pairs whose parameters are almost, but not exactly, the same (a tolerant comparison cancels them):
     # bases next to one another and next to 1, where the exponent ln b2 / ln b1 is far from 1
     for b1, b2 in ((1 + 1e-9, 1 + 1.5e-9), (1 + 1e-10, 1 + 3e-10), (2.0, math.nextafter(2.0, 3)), (E, math.nextafter(E, 3)),
@@ -1216,7 +1223,7 @@ def check_C08(ctx):
         for a, c, lab, j in cands:
             if sx.size(a) > 120 or sx.size(c) > 200:
                 continue
-            for p in points_for(rng, a, 1):
+            for p in points_for(rng, a, 1) + ([[(k_, -2) for k_ in sx.var_ids(a)]] if 'NthRoot' in sx.heads(a) and rng.random() < 0.5 else []):
                 ps = sx.point_sx(p)
                 pairs.append((b2.add('EVAL %s %s' % (ps, sx.to_sx(a))), b2.add('EVAL %s %s' % (ps, sx.to_sx(c))),
                               lab, j, r, a, c))
@@ -1229,7 +1236,7 @@ def check_C08(ctx):
                 except Exception:  # noqa: BLE001
                     cm = None
                 if cm is not None and sx.size(cm) <= 200:
-                    for p in points_for(rng, a, 2) + [[(k_, 1e18) for k_ in sx.var_ids(a)]]:
+                    for p in points_for(rng, a, 2) + [[(k_, 1e18) for k_ in sx.var_ids(a)], [(k_, -2) for k_ in sx.var_ids(a)]]:
                         ps = sx.point_sx(p)
                         versus.append((b2.add('EVAL %s %s' % (ps, sx.to_sx(a))), b2.add('EVAL %s %s' % (ps, sx.to_sx(c))),
                                        b2.add('EVAL %s %s' % (ps, sx.to_sx(cm))), lab, j))
